@@ -127,6 +127,12 @@ class _CheckingJacobian(DictionaryJacobian):
     def _setup(self, system):
         self._subjacs_info = self._subjacs_info.copy()
 
+        # The metadata dicts are shared with the system, so uncovered entries recorded by an earlier
+        # check would otherwise accumulate (and be reported again) in this one.
+        for meta in self._subjacs_info.values():
+            meta.pop('uncovered_nz', None)
+            meta.pop('uncovered_threshold', None)
+
         self._setup_index_maps(system)
         self._subjacs = self._get_subjacs(system)
 
